@@ -641,7 +641,7 @@ theorem semSubset_len (ped : Bool) (op : Nat) (bytes : List Nat) (vs vs' : List 
   · rw [if_pos c14] at h
     have ⟨h1, h2⟩ := hret _ h; exact ⟨applyUnary_len h1, h2⟩
   rw [if_neg c14] at h
-  by_cases c15 : op = 0x4F
+  by_cases c15 : op = 0x4F ∨ op = 0x7F
   · rw [if_pos c15] at h
     have ⟨h1, h2⟩ := hret _ h
     cases hp : pop ped vs with
